@@ -108,8 +108,20 @@ def _setup():
 _OUT_RE = re.compile(r"\[(OUT)?\]")
 
 
-def run_source(src, ctx_json):
-    """Compile + render one tag; -> outcome tuple."""
+def perturbed_ctx(j):
+    """The same context with every string leaf changed (types, shapes, keys and numbers kept)."""
+    if isinstance(j, str):
+        return j + "Z"
+    if isinstance(j, list):
+        return [perturbed_ctx(v) for v in j]
+    if isinstance(j, dict):
+        return {k: perturbed_ctx(v) for k, v in j.items()}
+    return j
+
+
+def run_source(src, ctx_json, then_ctx=None):
+    """Compile + render one tag; -> outcome tuple. then_ctx: render the SAME compiled template a second time with that
+    context and return the outcome of the second render (a node must not remember what it resolved before)."""
     from django.template import Context, Template, TemplateSyntaxError
 
     del REC[:]
@@ -123,6 +135,9 @@ def run_source(src, ctx_json):
         return ("compile-exc", type(e).__name__, exc_bucket(e), repr(e)[:200])
     try:
         out = tpl.render(Context(tg.build_context(ctx_json)))
+        if then_ctx is not None:
+            del REC[:]
+            out = tpl.render(Context(tg.build_context(then_ctx)))
     except (KeyboardInterrupt, SystemExit):
         raise
     except BaseException as e:  # noqa
@@ -297,6 +312,20 @@ def check_case(case):
             bucket = "value-mismatch:%s" % kind
             msg = "%s: %r -> %s, expected %s" % (rname, src, _brief(got), _brief(exp))
         general.append((msg, bucket))
+    # one compiled template, two renders with different contexts: the second call must get the second context's values
+    if not invalid and exp[0] == "ok" and not general and not special:
+        ctx2 = perturbed_ctx(case["ctx"])
+        if ctx2 != case["ctx"]:
+            try:
+                exp2 = expected_outcome(dict(case, ctx=ctx2))
+            except ValueError:
+                exp2 = None  # the perturbed context leaves the evaluator's domain: not judged
+            if exp2 is not None and exp2[0] == "ok":
+                for rname in ("comp", "node"):
+                    src = results[(0, rname)][0]
+                    got2 = run_source(src, case["ctx"], then_ctx=ctx2)
+                    if not _matches(exp2, got2):
+                        general.append(("%s: second render of the same compiled template %r with another context -> %s, expected %s (first render was right)" % (rname, src, _brief(got2), _brief(exp2)), "second-render-mismatch:%s" % got2[0]))
     info = {
         "invalid": invalid,
         "skeletons": len(skeletons),
